@@ -42,6 +42,8 @@ type Options struct {
 	LogHB      bool // log heartbeat exchanges that do not change state
 	NoSnapRestoreOnStart bool
 	Family     string
+	PreVoteOffNodes map[string]bool // servers configured with PreVoteDisabled (mixed cluster)
+	KeepMinorityDown bool // after faults stop, leave a crashed minority down (a majority must suffice)
 	LeaseCheck bool // evaluate the C13 step-down bound on this run (fine ticks only)
 	ExpectStable bool // fault-free run: leadership must never change
 }
@@ -91,6 +93,7 @@ type ClientOp struct {
 	Resp  string
 	fut   raft.Future
 	inc   *Incarnation
+	reported bool
 }
 
 // Cluster is a set of real raft.Raft nodes wired to harness-owned collaborators.
@@ -225,7 +228,7 @@ func (c *Cluster) raftConfig(id string) *raft.Config {
 	conf.SnapshotThreshold = c.Opt.SnapThresh
 	conf.SnapshotInterval = c.Opt.SnapIntv
 	conf.ShutdownOnRemove = c.Opt.ShutdownOnRemove
-	conf.PreVoteDisabled = c.Opt.PreVoteOff
+	conf.PreVoteDisabled = c.Opt.PreVoteOff || c.Opt.PreVoteOffNodes[id]
 	conf.BatchApplyCh = c.Opt.BatchApplyCh
 	conf.RestoreCommittedLogs = c.Opt.CommitTrack
 	conf.NoSnapshotRestoreOnStart = c.Opt.NoSnapRestoreOnStart
@@ -497,7 +500,14 @@ func (c *Cluster) emitState(cause string, n *Node, force bool) {
 		kv["h"] = hs
 		// "clean": this step was exactly one request handed to an idle server, so the
 		// previous projection of the server is the handler's pre-state
-		kv["clean"] = len(hs) == 1 && n.handledClean && cause == "deliver"
+		// (and no store error was injected into it: the handlers' error paths are not modelled)
+		failed := false
+		if n.inc != nil {
+			n.inc.mu.Lock()
+			failed, n.inc.failedSince = n.inc.failedSince, false
+			n.inc.mu.Unlock()
+		}
+		kv["clean"] = len(hs) == 1 && n.handledClean && cause == "deliver" && !failed
 	}
 	c.Tr.Emit("state", n.ID, kv)
 }
@@ -682,7 +692,7 @@ func (c *Cluster) Header() M {
 	return M{"ev": "reset", "family": c.Opt.Family, "seed": c.Opt.Seed, "servers": c.Opt.Servers, "cfgtab": tab,
 		"params": M{"maxappend": c.Opt.MaxAppend, "trailing": c.Opt.Trailing, "mono": c.Opt.Mono, "ct": c.Opt.CommitTrack,
 			"hb_us": int64(c.Opt.Heartbeat / time.Microsecond), "el_us": int64(c.Opt.Election / time.Microsecond), "lease_us": int64(c.Opt.Lease / time.Microsecond),
-			"prevote": !c.Opt.PreVoteOff, "batchfsm": c.Opt.BatchFSM, "cfgstore": c.Opt.CfgStoreFSM,
+			"prevote": !c.Opt.PreVoteOff, "pvoff": sortedKeys(c.Opt.PreVoteOffNodes), "batchfsm": c.Opt.BatchFSM, "cfgstore": c.Opt.CfgStoreFSM,
 			"norestore": c.Opt.NoSnapRestoreOnStart, "leasecheck": c.Opt.LeaseCheck}}
 }
 
@@ -710,4 +720,15 @@ func (c *Cluster) Finish() {
 	c.Tr.Emit("end", "", nil)
 	c.Tr.PrependHeader(c.Header())
 	raft.VerifSetHook(nil)
+}
+
+func sortedKeys(m map[string]bool) []string {
+	out := []string{}
+	for k, v := range m {
+		if v {
+			out = append(out, k)
+		}
+	}
+	sort.Strings(out)
+	return out
 }
